@@ -15,7 +15,7 @@ CHECKS = {
         note=TB + "The open defects KF-xorNotAnd / KF-xorOr (pinned by existing tests) are reported as KNOWN-FINDING; a failing input is explained only when model and code agree on it and the model's trace names that arm.",
         tech="Lean 4 proof (induction on fuel, per-arm soundness lemmas) + differential correspondence of the model with predicate.optimize", ref="§7 C01, §4, §5"),
     "C02": dict(
-        text="Same Lean soundness theorem (it quantifies over comparison, range, membership, none/truthy, isinstance with arbitrary overlapping classes, function atoms and all relative orders of constants of a linear order) with corollaries for the boundary claims (ranges as conjunctions with strictness, ge&le point collapse, set algebra incl. empty/singleton collapse) and decide-witnesses for the fn&eq and isinstance arms; tie: structural comparison on ~50 000 trees over a 53-atom grid and model eval vs real __call__ on 14 values.",
+        text="Same Lean soundness theorem (it quantifies over comparison, range, membership, none/truthy, isinstance with arbitrary overlapping classes, function atoms and all relative orders of constants of a linear order) with corollaries for the boundary claims (ranges as conjunctions with strictness, ge&le point collapse, set algebra incl. empty/singleton collapse) and decide-witnesses for the fn&eq and isinstance arms; C02_no_new_constants / C02_defined_preserved (optimize compares its argument with no bound the original did not, so it raises nowhere the original's comparisons are defined) from the generic closure theorem optimizeT_closed; tie: structural comparison on ~50 000 trees over a 53-atom grid and model eval vs real __call__ on 14 values.",
         note=TB + "Order atoms are totalised consistently on non-scalars (ge/gt false, le/lt their complements); the search only judges values on which every atom of the original is defined. Open defects KF-fnEq, KF-instDisjoint (+ the xor ones) are KNOWN-FINDINGs.",
         tech="Lean 4 proof (same induction, order facts by grind over LinearOrder) + differential correspondence (opt, eval)", ref="§7 C02"),
     "C03": dict(
@@ -63,8 +63,8 @@ CHECKS = {
         note=TB + "CPython 3.12 frame semantics are not in the Lean model: requests carry the user frames as ordered lists predicted by the harness and compared with observed f_locals on every run; inspect.currentframe, f_back, cached_property are trusted. String atoms are one-character strings; ~, ^, any_p are outside the AST (predicate_in_predicate_tree does not descend into them). Three defects were repaired in /repo (see known_findings.json).",
         tech="Lean 4 proof (induction on fuel and nesting depth) + differential execution on generated Python source", ref="§7 C16, §4.1 M7"),
     "C17": dict(
-        text="Lean theorems over an arm-for-arm model of format_dot.py: a decoder reading only a cluster's node table and non-dashed edges returns the predicate (C17_decode_render, incl. comp and dict_of); ids are k..k+n-1, so clusters sharing the counter are disjoint; nodes are the pre-order sub-predicates plus one kv per dict_of pair, with n-1 tree edges; labels parse back to operator and constants; range labels show the lower bound left, the upper right, with the sign of each end, and that reading equals eval; failure is only by ValueError and success exactly on the supported kinds; 20 theorems. Tie: model toDot vs the parsed Digraph.body (ids, names, labels, solid/key/value edges in order) on ~23 600 quick / ~159 000 thorough trees x show_optimized off/on, plus a direct walk of the real output with the real predicate and a label oracle written from the property text.",
-        note=TB + "Dashed (self-reference) edges are judged on the real output only (they must leave reference nodes and stay in the cluster): which reference resolves where depends on object identity, which the tree model does not carry. Set iteration order, graphviz quoting and rendering are not modelled. NOT proved: that optimize maps supported trees to supported trees (C17_toDot_optimized_total_partial takes it as a hypothesis; exercised on every show_optimized case). Four defects were repaired in /repo (see known_findings.json).",
+        text="Lean theorems over an arm-for-arm model of format_dot.py: a decoder reading only a cluster's node table and non-dashed edges returns the predicate (C17_decode_render, incl. comp and dict_of); ids are k..k+n-1, so clusters sharing the counter are disjoint; nodes are the pre-order sub-predicates plus one kv per dict_of pair, with n-1 tree edges; labels parse back to operator and constants; range labels show the lower bound left, the upper right, with the sign of each end, and that reading equals eval; failure is only by ValueError and success exactly on the supported kinds; 22 theorems. Tie: model toDot vs the parsed Digraph.body (ids, names, labels, solid/key/value edges in order) on ~23 600 quick / ~159 000 thorough trees x show_optimized off/on, plus a direct walk of the real output with the real predicate and a label oracle written from the property text.",
+        note=TB + "Dashed (self-reference) edges are judged on the real output only (they must leave reference nodes and stay in the cluster): which reference resolves where depends on object identity, which the tree model does not carry. Set iteration order, graphviz quoting and rendering are not modelled. That optimize maps supported trees to supported trees is a theorem (C17_optimize_supported, an instance of the generic closure theorem optimizeT_closed over every rule of the optimizer model), so show_optimized is total on supported trees (C17_toDot_optimized_total). Five defects were repaired in /repo (see known_findings.json).",
         tech="Lean 4 proof (functional induction over render, decoder with fuel) + differential correspondence (dot) + direct walk/oracle on the real Digraph.body", ref="§7 C17, §4.1 M5"),
     "C18": dict(
         text="Lean theorems about toJson over the Pred type of the optimizer model: exactly one key naming the kind, C18_shape (nesting of the JSON = nesting of the predicate through left/right and 'predicate' in operand order), variable name, ne constant, fn name, tee, the 'unknown' placeholder and only that, serialisable iff every reachable ne constant is; 13 theorems. Tie: json, shape and serialisability compared with the model and json.dumps run on 46 530 quick / 240 838 thorough cases over 212 atoms (every exported constructor, 12 kinds of callable, awkward names and constants); the property is also judged directly on the real objects.",
